@@ -89,6 +89,8 @@ class Z3Backend:
     def tlen(self, ts): return self.V.SeqRef.info.len(ts)
     # ints / optints
     def i(self, n): return z3.IntVal(n)
+    def emod(self, a, b): return a % b
+    def ediv(self, a, b): return a / b
     def add(self, a, b): return a + b
     def sub(self, a, b): return a - b
     def mul(self, a, b): return a * b
@@ -133,7 +135,8 @@ class Z3Backend:
 
 def law_axioms(spec, tiers: tuple[str, ...] | None = None) -> list[z3.BoolRef]:
     B = Z3Backend()
-    return [B.axiom(l) for l in LAWS if tiers is None or l.tier in tiers]
+    # laws without a trigger (integer arithmetic) are only used through explicit instances (spec.laws.instance)
+    return [B.axiom(l) for l in LAWS if (tiers is None or l.tier in tiers) and not (l.trigger is None and l.vars)]
 
 
 # ================================================================= the laws themselves
@@ -458,3 +461,27 @@ def _(B, t, cl, X):
 @law("callable-filter-len", "L", "cl:Callable X:RS", lambda B, cl, X: B.filterc(cl, X))
 def _(B, cl, X):
     return B.and_(B.le(B.rlen(B.filterc(cl, X)), B.rlen(X)), B.eq(B.rcols(B.filterc(cl, X)), B.rcols(X)))
+
+
+# ---- integer arithmetic (range literals)
+@law("mod-congruence", "T1", "x:Int a:Int s:Int", None, status="assumed, bounded-checked (Mathlib: Int.emod_emod_of_dvd / Int.emod_eq_emod_iff_emod_sub_eq_zero)")
+def _(B, x, a, s):
+    return B.implies(B.lt(B.i(0), s), B.eq(B.eq(B.emod(B.sub(x, a), s), B.i(0)), B.eq(B.emod(x, s), B.emod(a, s))))
+
+
+@law("floor-division", "T1", "d:Int s:Int", None)
+def _(B, d, s):
+    q = B.ediv(d, s)
+    return B.implies(B.and_(B.lt(B.i(0), s), B.le(B.i(0), d)), B.and_(B.le(B.mul(q, s), d), B.lt(d, B.mul(B.add(q, B.i(1)), s)), B.le(B.i(0), q),
+                                                                     B.eq(B.emod(B.mul(q, s), s), B.i(0))))
+
+
+@law("emod-small-negative", "T1", "y:Int s:Int", None)
+def _(B, y, s):
+    return B.implies(B.and_(B.lt(B.i(0), s), B.lt(B.sub(B.i(0), s), y), B.lt(y, B.i(0))), B.eq(B.emod(y, s), B.add(y, s)))
+
+
+def instance(name: str, *args):
+    """An instance of a law at the given z3 terms (for Clause.lemmas)."""
+    l = next(x for x in LAWS if x.name == name)
+    return l.body(Z3Backend(), *args)
